@@ -156,6 +156,12 @@ def _int_eval(node, env):
             return l % r
     if isinstance(node, ast.UnaryOp) and isinstance(node.op, ast.USub):
         return -_int_eval(node.operand, env)
+    if isinstance(node, ast.Call) and isinstance(
+            node.func, ast.Name) and node.func.id in ('max', 'min', 'abs',
+                                                      'int') and node.args:
+        vals = [_int_eval(a, env) for a in node.args]
+        return {'max': max, 'min': min, 'abs': lambda *a: abs(a[0]),
+                'int': lambda *a: int(a[0])}[node.func.id](*vals)
     raise AnalysisError('cannot fold `%s`' % ast.unparse(node))
 
 
@@ -202,11 +208,6 @@ def _constructors(prog, report, ext, verified):
                         parity.ops[0], ast.NotEq) else (lhs == rhs)
                     if not okp:
                         continue
-                elif n_poly % 2 == 0:
-                    # the sibling constructors assert oddness and every
-                    # caller passes odd orders; even requests are outside
-                    # the admissible range (noted, not a verdict)
-                    continue
                 for name, v in assigns:
                     env[name] = _int_eval(v, env)
                 key = _int_eval(call.args[0], env)
